@@ -128,7 +128,7 @@ def gen_problem(rng, kind="mixed", n=None, m=None, hess=False):
 
 class Request:
     def __init__(self, prob, x0, y0, S0, solver="panoc", direction="lbfgs", mode="inner", params=(), always=True,
-                 tol=0.0, max_time_ns=-1, stop_at_eval=-1, stop_at_cb=-1, nan_from_eval=-1, script=(), script_initial=False,
+                 tol=0.0, max_time_ns=-1, stop_at_eval=-1, stop_at_cb=-1, nan_from_eval=-1, stop_at_dircall=-1, script=(), script_initial=False,
                  rec_limit=100000):
         self.__dict__.update(locals())
         del self.__dict__["self"]
@@ -138,7 +138,7 @@ class Request:
              "%s %s %s" % (self.solver, self.direction, self.mode),
              "%d %s" % (len(self.params), " ".join(self.params)),
              "%d %s %d" % (1 if self.always else 0, hexf(self.tol), self.max_time_ns),
-             "%d %d %d" % (self.stop_at_eval, self.stop_at_cb, self.nan_from_eval),
+             "%d %d %d %d" % (self.stop_at_eval, self.stop_at_cb, self.nan_from_eval, self.stop_at_dircall),
              "%d %s" % (len(self.script), " ".join(str(s) for s in self.script)),
              "%d" % (1 if self.script_initial else 0), "%d" % self.rec_limit]
         return "\n".join(t) + "\n"
@@ -146,7 +146,7 @@ class Request:
     def describe(self):
         return {"solver": self.solver, "dir": self.direction, "mode": self.mode, "params": list(self.params),
                 "always_overwrite": self.always, "tolerance": self.tol, "max_time_ns": self.max_time_ns,
-                "stop_at_eval": self.stop_at_eval, "stop_at_cb": self.stop_at_cb, "nan_from_eval": self.nan_from_eval,
+                "stop_at_eval": self.stop_at_eval, "stop_at_cb": self.stop_at_cb, "nan_from_eval": self.nan_from_eval, "stop_at_dircall": self.stop_at_dircall,
                 "script": list(self.script), "x0": self.x0, "y0": self.y0, "Sigma": self.S0, "problem": self.prob.describe()}
 
     def param(self, key, default=None):
